@@ -17,6 +17,7 @@ func (p *Parser) parseInclude(parser *Parser) (Node, error) {
 
 	// Check for optional parameters
 	var variables map[string]Node
+	var variableOrder []string
 	var ignoreMissing bool
 	var onlyContext bool
 	var sandboxed bool
@@ -81,7 +82,10 @@ func (p *Parser) parseInclude(parser *Parser) (Node, error) {
 						return nil, err
 					}
 
-					// Add to variables map
+					// Add to variables map (and remember the order of writing)
+					if _, seen := variables[varName]; !seen {
+						variableOrder = append(variableOrder, varName)
+					}
 					variables[varName] = varExpr
 
 					// If there's a comma, skip it
@@ -121,7 +125,10 @@ func (p *Parser) parseInclude(parser *Parser) (Node, error) {
 						return nil, err
 					}
 
-					// Add to variables map
+					// Add to variables map (and remember the order of writing)
+					if _, seen := variables[varName]; !seen {
+						variableOrder = append(variableOrder, varName)
+					}
 					variables[varName] = varExpr
 
 					// If there's a comma, skip it
@@ -172,6 +179,7 @@ func (p *Parser) parseInclude(parser *Parser) (Node, error) {
 	includeNode := &IncludeNode{
 		template:      templateExpr,
 		variables:     variables,
+		variableOrder: variableOrder,
 		ignoreMissing: ignoreMissing,
 		only:          onlyContext,
 		sandboxed:     sandboxed,
